@@ -19,10 +19,6 @@ package client
 
 //@      // ---- C18: lock discipline of the client-side code. `lockonly`: only lock balance / unlock-of-held /
 //@      // no-self-deadlock / lock order are generated for these bodies.
-//@ func (*PeriodicTimer).IsRunning
-//@   lockonly
-//@ func (*PeriodicTimer).Start
-//@   lockonly
 //@ func (*binding).refreshedAt
 //@   lockonly
 //@ func (*binding).setRefreshedAt
@@ -289,6 +285,7 @@ package client
 
 //@ func (*PeriodicTimer).Stop
 //@   requires t != nil && !held(t.mutex) && !rheld(t.mutex)
+//@   at-call field client.PeriodicTimer.stopFunc assert [C14,C15:stop-cancels-the-goroutine] held(t.mutex)
 //@   ensures t.stopFunc == nil
 //@   ensures forall ch :: !isTimerCancel(ch) ==> closed(ch) == old(closed(ch))
 //@   assigns t.stopFunc, channels
@@ -450,3 +447,22 @@ package client
 //@   lockonly
 //@ func newPermissionMap
 //@   lockonly
+
+//@      // ---- C14: the periodic timers really run. Start launches the goroutine once and records how to cancel it;
+//@      // each expiry calls the handler with the timer's id; Stop cancels the goroutine through the recorded function.
+//@ func (*PeriodicTimer).Start
+//@   requires t != nil && !held(t.mutex) && !rheld(t.mutex)
+//@   ensures [C14:start-once] res == old(t.stopFunc == nil) && t.stopFunc != nil
+//@   ensures [C14:start-once] !res ==> t.stopFunc == old(t.stopFunc)
+//@   ensures [C14:cancel-function] res ==> clofn(t.stopFunc) == fnid("(*PeriodicTimer).Start$2")
+//@   assigns t.stopFunc
+
+//@ func (*PeriodicTimer).Start$1
+//@   assume-callee-pre
+//@   at-call field client.PeriodicTimer.timeoutHandler assert [C14:expiry-runs-the-handler] arg0 == t.id
+//@   at-call time.NewTimer assert [C14:period-is-the-interval] arg0 == t.interval
+
+//@ func (*PeriodicTimer).IsRunning
+//@   requires t != nil && !held(t.mutex)
+//@   ensures res == (t.stopFunc != nil)
+//@   pure
